@@ -51,7 +51,7 @@ Fixpoint apply_assignments (l : list (string * string)) (c : tlscfg) : option tl
         if String.eqb e "false" then apply_assignments r {| min_version := min_version c; cauth := cauth c; insecure_skip_verify := false |}
         else if String.eqb e "true" then apply_assignments r {| min_version := min_version c; cauth := cauth c; insecure_skip_verify := true |}
         else None
-      else if String.eqb f "PreferServerCipherSuites" then apply_assignments r c    (* no effect on who is admitted *)
+      else if String.eqb f "PreferServerCipherSuites" then apply_assignments r c    (* no effect on who is cleared *)
       else None      (* any other field (ClientCAs, VerifyPeerCertificate, MaxVersion, ...) is not understood: the theorem must not be claimed *)
   end.
 
